@@ -75,9 +75,17 @@ async fn drive_to(server: SocketAddr, point: usize, gate: &Arc<Semaphore>, peer:
         return None;
     }
     if point <= 1 {
-        // no reply is due yet: give the accept loop the time to pick the connection up, so that it
-        // really is in progress (and not still in the kernel's backlog) when the stop is requested
-        tokio::time::sleep(Duration::from_millis(25)).await;
+        // no reply is due yet. The connection has to be in progress - accepted, not still in the kernel's backlog -
+        // when the stop is requested, and no amount of waiting proves that on a busy machine. A barrier does:
+        // connections are accepted in the order in which they were made, so once a probe that connected later
+        // has been served, this one has been accepted.
+        let mut probe = McClient::connect(server, Some("127.0.0.6".parse().unwrap())).await.ok()?;
+        if proxy {
+            probe.send_raw(&proxy_v2("203.0.113.6:5555".parse().unwrap(), server)).await.ok()?;
+        }
+        probe.status_exchange(Duration::from_secs(3)).await.ok()?;
+        drop(probe);
+        tokio::time::sleep(Duration::from_millis(5)).await;
     }
     if point == 6 {
         gate.add_permits(1);
